@@ -190,6 +190,22 @@ theorem comVal_ne_zero (hG : ValidGroup G) {P : GrothPub} (hP : PubOk G P) (n : 
   intro i hi
   exact zpow_ne_zero _ (gen_ne hG hP i (by have := Finset.mem_range.mp hi; omega))
 
+/-- commitments are elements of the subgroup of order `q` -/
+theorem comVal_sub (hG : ValidGroup G) {P : GrothPub} (hP : PubOk G P) (n : ℕ) (hn : n ≤ P.cg.length)
+    (m : ℕ → ℤ) (r : ℤ) : comVal G P n m r ^ G.q.natAbs = 1 := by
+  unfold comVal
+  rw [mul_pow, zpow_pow_q (h_sub P.S hP.st), one_mul, ← Finset.prod_pow]
+  apply Finset.prod_eq_one
+  intro i hi
+  exact zpow_pow_q (gen_sub hP i (by have := Finset.mem_range.mp hi; omega)) _
+
+/-- `TestMembership` accepts the reduced representative of a commitment -/
+theorem testMembership_val (hG : ValidGroup G) {P : GrothPub} (hP : PubOk G P) (n : ℕ) (hn : n ≤ P.cg.length)
+    (m : ℕ → ℤ) (r c : ℤ) (hc : Val G c (comVal G P n m r)) : testMembership P c = true := by
+  unfold testMembership
+  rw [hP.st.grp]
+  exact hc.elem hG (comVal_sub hG hP n hn m r)
+
 /-! ### the polynomial identity of the shuffle of known content, in `ZMod q` -/
 
 section
